@@ -503,3 +503,72 @@ def _close(a, b, tol):
         return abs(float(a) - float(b)) <= tol * max(1.0, abs(float(a)), abs(float(b)))
     except Exception:
         return False
+
+
+# ------------------------------------------------------------------ quantified loop VCs by explicit instantiation
+
+def _peel(t_, fresh_prefix=None):
+    """forall x in lo..hi. forall y ... body  ->  ([(x, lo, hi), ...], body)"""
+    bs = []
+    while t_.op == 'forall':
+        bv, lo, hi, body = t_.args
+        bs.append((bv, lo, hi))
+        t_ = body
+    return bs, t_
+
+
+def _index_terms(t_, acc, depth=0):
+    if depth > 40 or not isinstance(t_, T):
+        return
+    if t_.op in ('sel', 'app'):
+        for a in t_.args[1:]:
+            if isinstance(a, T) and a.sort == 'I' and a.op != 'const' and tm.size(a) <= 12:
+                acc.add(a)
+    if t_.op in tm.BINDERS:
+        return
+    for a in t_.args:
+        if isinstance(a, T):
+            _index_terms(a, acc, depth + 1)
+
+
+def prove_inst(hyps, goal, timeout_ms=20000, max_inst=400):
+    """/\\ hyps => goal where goal and some hyps are (nested) bounded foralls, decided WITHOUT quantifiers:
+    the goal is skolemised, every quantified hypothesis is replaced by its instances at all tuples of
+    candidate index terms (skolem constants and the integer index terms occurring in the goal).  Sound: every
+    instance follows from its hypothesis; incomplete by design (falls back to the quantified query)."""
+    bs, body = _peel(goal)
+    ren = {}
+    rng = []
+    for (bv, lo, hi) in bs:
+        sk = tm.fresh('sk_' + bv.args[0].split('#')[0], 'I')
+        ren[bv] = sk
+    for (bv, lo, hi) in bs:
+        rng += [tm.le(tm.subst(lo, ren), ren[bv]), tm.lt(ren[bv], tm.subst(hi, ren))]
+    g0 = tm.subst(body, ren)
+    cands = set(ren.values())
+    _index_terms(g0, cands)
+    for h_ in hyps:
+        if h_.op != 'forall':
+            _index_terms(h_, cands)
+    cands = sorted(cands, key=lambda u: (tm.size(u), u.uid))[:8]
+    ground, quantified = [], []
+    for h_ in hyps:
+        (quantified if h_.op == 'forall' else ground).append(h_)
+    insts = []
+    import itertools
+    for q in quantified:
+        qbs, qbody = _peel(q)
+        for tup in itertools.product(cands, repeat=len(qbs)):
+            m = {bv: t_ for (bv, _, _), t_ in zip(qbs, tup)}
+            conds = []
+            for (bv, lo, hi) in qbs:
+                conds += [tm.le(tm.subst(lo, m), m[bv]), tm.lt(m[bv], tm.subst(hi, m))]
+            insts.append(tm.implies(tm.and_(*conds), tm.subst(qbody, m)))
+            if len(insts) >= max_inst:
+                break
+    for big in (False, True):
+        r = smt.check_sat(ground + rng + insts + [tm.not_(g0)], timeout_ms=timeout_ms, want_model=False, big_axioms=big, use_cvc5=False)
+        if r.status == 'unsat':
+            r.backend = 'z3 QF (explicit instantiation: %d instances%s)' % (len(insts), '' if big else ', binders as UF')
+            return r
+    return smt.prove(hyps, goal, timeout_ms=timeout_ms)
